@@ -51,7 +51,10 @@ CORR = {"outside_tolerance_accepted": corrupt_accept, "inside_tolerance_rejected
 
 def fn_case(rng):
     t = rng.choice([0, 1, 10 ** 15, 10 ** 16, 5 * 10 ** 16, 5 * 10 ** 17, D - 1, D, D + 1, 2 * D, rng.randrange(0, D + 1),
-                    rng.randrange(0, D + 1)])
+                    rng.randrange(0, D + 1), rng.randrange(0, D + 1),
+                    # far above 100%: multiples of 2^64 / 2^96 plus a small remainder, and anything up to u128::MAX
+                    (rng.randrange(1, 1 << 40) << 64) + rng.randrange(0, D + 1), (1 << 64) + rng.randrange(0, D + 1),
+                    (rng.randrange(1, 1 << 20) << 96) + rng.randrange(0, D + 1), rng.getrandbits(rng.randrange(61, 129))])
     sb = rng.choice([4, 10, 20, 40, 60, 64, 80, 100, 120, 128])
     p0, p1 = gen.amount128(rng, sb), gen.amount128(rng, max(1, min(127, sb + rng.randrange(-70, 71))))
     d1 = gen.amount128(rng, rng.choice([4, 10, 20, 40, 60, 64, 80, 100, 120]))
